@@ -40,8 +40,9 @@ def chunks(tier, seed):
     n = 9 if tier == 'quick' else 12 * DEEP
     out = []
     for key in _selected():
-        for k in range(0, n, 3):
-            out.append(('case_contract', [dict(key=key, seed=seed * 100003 + k + i) for i in range(min(3, n - k))]))
+        step = 1 if tier == 'quick' else 4
+        for k in range(0, n, step):
+            out.append(('case_contract', [dict(key=key, seed=seed * 100003 + k + i) for i in range(min(step, n - k))]))
     return out
 
 
